@@ -123,7 +123,7 @@ pub open spec fn others_same(a: Map<Inode, FileState>, b: Map<Inode, FileState>,
     a.dom() == b.dom() && forall|j: Inode| j != i && a.contains_key(j) ==> #[trigger] b[j] == a[j]
 }
 /// `t1` extends `t0`
-pub open spec fn ext(t0: Seq<Event>, t1: Seq<Event>) -> bool {
+pub open spec fn tr_ext(t0: Seq<Event>, t1: Seq<Event>) -> bool {
     t0.len() <= t1.len() && forall|k: int| 0 <= k < t0.len() ==> #[trigger] t1[k] == t0[k]
 }
 pub open spec fn is_write_on(e: Event, i: Inode) -> bool {
@@ -131,7 +131,7 @@ pub open spec fn is_write_on(e: Event, i: Inode) -> bool {
 }
 /// `t1` extends `t0` by data writes on inode `i` only
 pub open spec fn ext_writes(t0: Seq<Event>, t1: Seq<Event>, i: Inode) -> bool {
-    ext(t0, t1) && forall|k: int| t0.len() <= k < t1.len() ==> is_write_on(#[trigger] t1[k], i)
+    tr_ext(t0, t1) && forall|k: int| t0.len() <= k < t1.len() ==> is_write_on(#[trigger] t1[k], i)
 }
 
 // ---------------------------------------------------------------- byte algebra
